@@ -511,6 +511,12 @@ func Cumulative(e Bits, forward bool) (float64, float64) {
 			z = -s
 		}
 	}
+	p := CumulativeP(n, z)
+	return p, p
+}
+
+// CumulativeP is the cumulative-sums P-value as a function of the length and the maximum excursion.
+func CumulativeP(n, z int) float64 {
 	sq := math.Sqrt(float64(n))
 	// i in [(-n/z+1)/4, (n/z-1)/4] : 4i >= -n/z+1 <=> 4 i z >= -n + z
 	lo1 := ceilDiv(-n+z, 4*z)
@@ -523,7 +529,7 @@ func Cumulative(e Bits, forward bool) (float64, float64) {
 	for i := lo2; i <= hi; i++ {
 		p += phi(float64((4*i+3)*z)/sq) - phi(float64((4*i+1)*z)/sq)
 	}
-	return p, p
+	return p
 }
 
 // ---------- 12 approximate entropy ----------
